@@ -296,6 +296,7 @@ func bigSplatCase(d bigSplatDesc) hx.Case {
 		nil, map[string][]float64{modeling.OpacityAttribute: op}, nil)
 	var buf bytes.Buffer
 	var werr error
+	inDigest := meshDigest(m)
 	func() {
 		defer func() {
 			if rec := recover(); rec != nil {
@@ -307,6 +308,8 @@ func bigSplatCase(d bigSplatDesc) hx.Case {
 	out := buf.Bytes()
 	if werr != nil {
 		c.GoFail, c.FailKey = "splat.Write failed: "+werr.Error(), "splat:write-error"
+	} else if f := splatWriteSide(m, inDigest, out); f != "" {
+		c.GoFail, c.FailKey = f, "splat:write-side"
 	}
 	var ffile, fscale fpState
 	ffile.bytes(out)
